@@ -243,3 +243,44 @@ func zzWalSyncPipelineOnce(n int) {
 	zzSegCap = 2
 	_ = w.Close()
 }
+
+// ZZWalManySegments (C09): n entries, ONE per segment, so that the log spans n-1 read-only segments —
+// more than the read-only group keeps open (it evicts the lowest-numbered cached segments beyond 5).
+// After a forward scan has warmed the cache with the highest segments, a reverse scan, a second forward
+// scan, a reader started at a symbolic old offset and a reopen must still return every entry: a segment
+// handed to a reader is never a closed one, whatever the order in which segments are visited.
+func ZZWalManySegments(n int) {
+	zzDisk = map[int64]*zzSegData{}
+	zzSegCap = 1
+	dir := vTempDir()
+	cp := &zzCommit{off: 1 << 40}
+	clock := &zzWClock{}
+	w := zzOpenWal(dir, cp, clock)
+	var ref []zzRef
+	for i := int64(0); i < int64(n); i++ {
+		vAssert("append-ok", w.Append(zzEntry(i, uint64(1000+i))) == nil)
+		ref = append(ref, zzRef{i, byte(i + 1), uint64(1000 + i)})
+	}
+	zzCheckWal(w, ref, 0, "first-pass")   // forward, then backward
+	zzCheckWal(w, ref, 0, "second-pass")  // forward again with the cache holding the low segments, then backward
+	from := int64(vChoice("reader-from", n)) // a new reader at an arbitrary old offset
+	r, err := w.NewReader(from - 1)
+	vAssert("reader-ok", err == nil)
+	if err == nil {
+		for i := from; i < int64(n); i++ {
+			vAssert("old-offset-reader-has-next", r.HasNext())
+			e, rerr := r.ReadNext()
+			vAssert("old-offset-reader-reads", rerr == nil && e != nil && e.Offset == i && e.Value[0] == byte(i+1))
+			if rerr != nil {
+				break
+			}
+		}
+		_ = r.Close()
+	}
+	vAssert("close-ok", w.Close() == nil)
+	w = zzOpenWal(dir, cp, clock)
+	zzCheckWal(w, ref, 0, "after-reopen")
+	_ = w.Close()
+	zzSegCap = 2
+	vReach("end")
+}
